@@ -74,6 +74,7 @@ func checkCross(c crossCase) *vk.Failure {
 	dB := denseOf(b)
 
 	var logs, conds []named
+	var pcPiv []int
 	var sols []struct {
 		name string
 		x    *M
@@ -175,6 +176,7 @@ func checkCross(c crossCase) *vk.Failure {
 			return failf("pivchol-rejected", "PivotedCholesky.Factorize returned false, kappa_2=%g", kappa2)
 		}
 		conds = append(conds, named{"PivotedCholesky", pc.Cond()})
+		pcPiv = pc.ColumnPivots(nil)
 		var x2 mat.Dense
 		if f := addSol("PivotedCholesky", &x2, pc.SolveTo(&x2, dB)); f != nil {
 			return f
@@ -202,15 +204,28 @@ func checkCross(c crossCase) *vk.Failure {
 		}
 	}
 	// condition estimates: all estimate kappa_inf (= kappa_1 for symmetric input)
-	// from below within estFactor; kappa_2/n <= kappa_inf <= n kappa_2.
+	// from below, kappa_inf <= n kappa_2; the lower side is the bound the
+	// estimator always attains. Mutual agreement within estFactor is the usual
+	// behaviour but not guaranteed: counted, not asserted.
+	_, _, invA, okInv := luRef(A)
 	for i := range conds {
-		if !(conds[i].v >= kappa2/(fn*estFactor)*(1-1e-6)) || !(conds[i].v <= fn*kappa2*(1+1e-6)) {
-			return failf("cond-range", "n=%d class %s: %s.Cond()=%g outside [kappa_2/(n*%g), n*kappa_2], kappa_2=%g", n, c.Class, conds[i].name, conds[i].v, estFactor, kappa2)
+		if !(conds[i].v <= fn*kappa2*(1+1e-6)) {
+			return failf("cond-range", "n=%d class %s: %s.Cond()=%g exceeds n*kappa_2, kappa_2=%g", n, c.Class, conds[i].name, conds[i].v, kappa2)
+		}
+		if okInv {
+			B := invA.t()
+			if conds[i].name == "PivotedCholesky" {
+				B = permSym(invA, pcPiv) // Pocon works on P'AP
+			}
+			if f := condLower("cond-range-"+conds[i].name, conds[i].v, normInf(A), B, kappa2/fn); f != nil {
+				f.Msg = conds[i].name + ": " + f.Msg
+				return f
+			}
 		}
 		for j := i + 1; j < len(conds); j++ {
 			lo, hi := math.Min(conds[i].v, conds[j].v), math.Max(conds[i].v, conds[j].v)
 			if !(hi <= lo*estFactor*(1+1e-6)) {
-				return failf("cond-disagree", "n=%d class %s: %s.Cond()=%g but %s.Cond()=%g", n, c.Class, conds[i].name, conds[i].v, conds[j].name, conds[j].v)
+				vk.Inconclusive("cond-estimates-differ-by-more-than-10")
 			}
 		}
 	}
